@@ -14,6 +14,13 @@ func main() {
 		fmt.Println("usage: fvc vc|check|dump ...")
 		os.Exit(2)
 	}
+	if sd := 0; true {
+		fmt.Sscan(os.Getenv("VERIF_SEED"), &sd)
+		if sd < 0 {
+			sd = -sd
+		}
+		solverSeed = sd % 1000000
+	}
 	switch os.Args[1] {
 	case "vc":
 		os.Exit(cmdVC(os.Args[2:]))
